@@ -200,7 +200,16 @@ func c10Check(w *World, thr int, pol string, daemon bool) []Violation {
 				lastAns = e.Data
 			}
 		}
-		_ = lastAns
+		if !daemon && st.Status == "Running" && lastAns != "" {
+			// completeness: the reported health follows the most recent probe answer
+			want := "Ready"
+			if lastAns != "ok" {
+				want = "Not Ready"
+			}
+			if st.Health != want {
+				vs = append(vs, viol("C10", "health-stale:"+lastAns, "last probe answer since the launch was %q but the process is reported %q", lastAns, st.Health))
+			}
+		}
 		if !daemon {
 			switch st.Health {
 			case "Ready":
